@@ -5,9 +5,11 @@ package main
 
 import (
 	z "github.com/Oudwins/zog"
+	"github.com/Oudwins/zog/zhttp"
 
 	"encoding/json"
 	"fmt"
+	"net/http"
 	"reflect"
 	"sort"
 	"strings"
@@ -90,7 +92,7 @@ func permuteFields(n *eng.Node, r *rng.R) *eng.Node {
 // success, the destination must be identical on every run.
 func streamOrder(seed uint64, n int, variant string) (*Summary, error) {
 	sum := newSummary("order", seed)
-	sum.Rule = "engine-stream cases with at least one struct of arity >= 2, each executed 12 times (6 with permuted schema-map insertion order); non-trivial = at least 2 distinct field visit orders were observed for the case; distinct = distinct case line; plus ~130 input SHAPES through the dyn schema (maps with interface / named keys whose keys of different dynamic type spell the same field, at top level and nested; every value of the dyn zoo), each call repeated 6-48 times and compared run to run"
+	sum.Rule = "engine-stream cases with at least one struct of arity >= 2, each executed 12 times (6 with permuted schema-map insertion order); non-trivial = at least 2 distinct field visit orders were observed for the case; distinct = distinct case line; plus ~130 input SHAPES through the dyn schema (maps with interface / named keys whose keys of different dynamic type spell the same field, at top level and nested; every value of the dyn zoo), each call repeated 6-48 times and compared run to run; plus query / form requests whose parameter names carry index-like decorations denoting the same position"
 	root := rng.New(seed)
 	distinct := map[string]bool{}
 	rerunProbe(sum, seed)
@@ -388,6 +390,9 @@ func rerunCanon(m z.ZogIssueMap, d *dDest) string {
 		}
 		sb.WriteString(";")
 	}
+	if d == nil {
+		return sb.String()
+	}
 	js, _ := json.Marshal(d)
 	return sb.String() + " dest=" + string(js)
 }
@@ -414,6 +419,43 @@ func rerunProbe(sum *Summary, seed uint64) {
 		map[any]any{"name": "alice", dNamedStr("name"): "b", dStringer{"name"}: "c", nil: "d"},
 		map[any]any{true: 1, "true": 2},
 	)
+	// requests whose parameter NAMES could be merged by a front end: index-like decorations that denote the
+	// same position (k[1], k[01], k[+1]), with and without the plain k[] parameter; repeated run to run
+	type rq struct {
+		Tags []string `query:"tags[]" form:"tags[]"`
+		Name string
+	}
+	rqSchema := z.Struct(z.Schema{"tags": z.Slice(z.String().Min(2)), "name": z.String().Min(2)})
+	for qi, q := range []string{"tags[1]=a&tags[01]=bb", "tags[0]=x&tags[-0]=yy&tags[+0]=zzz", "tags[]=a&tags[0]=bb&tags[00]=c", "tags[2]=a&tags[1]=bb&tags[02]=c&tags[ 2]=dd",
+		"name=a&name=bb&Name=ccc", "tags[a]=x&tags[A]=yy", "tags%5B1%5D=a&tags[1]=bb", "tags[1]=a&tags[1.0]=bb&tags[1e0]=ccc", "tags=a&tags[]=bb&tags[][]=c"} {
+		for _, method := range []string{"GET", "POST"} {
+			q, method := q, method
+			func() {
+				defer func() { recover() }()
+				sum.Evaluations++
+				first := ""
+				for k := 0; k < 48; k++ {
+					var req *http.Request
+					if method == "GET" {
+						req, _ = http.NewRequest("GET", "http://x/y?"+q, nil)
+					} else {
+						req, _ = http.NewRequest("POST", "http://x/y", strings.NewReader(q))
+						req.Header.Set("Content-Type", "application/x-www-form-urlencoded")
+					}
+					var d rq
+					m := rqSchema.Parse(zhttp.Request(req), &d)
+					got := rerunCanon(m, nil) + fmt.Sprintf(" dest=%q %q", d.Tags, d.Name)
+					if k == 0 {
+						first = got
+					} else if got != first {
+						sum.addViolation("C09", Mismatch{Case: fmt.Sprintf("rerun request[%d] %s %s", qi, method, q), What: fmt.Sprintf("results differ between runs of the same call:\nrun 0: %s\nrun %d: %s", first, k, got)})
+						return
+					}
+				}
+				sum.Hist["rerun_requests_stable"]++
+			}()
+		}
+	}
 	inputs = append(inputs, dynZoo()...)
 	for i, in := range inputs {
 		runs := 6
